@@ -7,7 +7,7 @@
    The variables are the entries of the TensorDict the property names
    (rec_current, rec_best, cost_current, cost_bsf, reward); rec0, hist, pbsf, seenMin, rsum
    are history variables from which the invariants recompute the stated quantities.
-   Family: JSON list of [id, kind, n, K, D, depth, jump] (integer distance matrix D).
+   Family: JSON list of [id, kind, n, K, D, depth, jump, first] (integer distance matrix D).
    Initial states: every instance x every (precedence-feasible) tour.
    Next: every move admitted by the environment's move mask (KOptOps!Moves / RuinRepairOps!RRMoves).
    Invariants never halt TLC: a failing clause prints <<"MODELFAIL", clause, id, rec0, hist>>;
@@ -16,8 +16,8 @@ EXTENDS KOptOps, RuinRepairOps, Json, IOUtils
 
 Family == JsonDeserialize(IOEnv.FAMILY_FILE)
 
-VARIABLES inst, rec0, hist, cur, best, ccur, cbsf, rew, pbsf, seenMin, rsum
-vars == <<inst, rec0, hist, cur, best, ccur, cbsf, rew, pbsf, seenMin, rsum>>
+VARIABLES inst, rec0, hist, cur, best, ccur, cbsf, rew, prev, pbsf, seenMin, rsum
+vars == <<inst, rec0, hist, cur, best, ccur, cbsf, rew, prev, pbsf, seenMin, rsum>>
 
 IsPDP(i) == i.kind = "pdp"
 MoveSet(i, rec)      == IF IsPDP(i) THEN RRMoves(rec) ELSE Moves(rec, i.K)
@@ -29,7 +29,8 @@ Jump == <<0 - 1>>
 
 Init == /\ inst \in ToSetU(Family)
         /\ rec0 \in Tours(inst)
-        /\ hist = <<>> /\ cur = rec0 /\ best = rec0
+        /\ (inst.first = 0 \/ rec0[1] = inst.first)      \* optional restriction of the initial tours (scope control)
+        /\ hist = <<>> /\ cur = rec0 /\ best = rec0 /\ prev = rec0
         /\ ccur = TourLen(inst.D, rec0) /\ cbsf = ccur /\ pbsf = ccur /\ seenMin = ccur
         /\ rew = 0 /\ rsum = 0
 
@@ -37,7 +38,7 @@ Init == /\ inst \in ToSetU(Family)
 Do(a, nextRec) ==
   LET b == Book(inst.D, best, cbsf, nextRec)
   IN /\ cur' = b.cur /\ best' = b.best /\ ccur' = b.ccur /\ cbsf' = b.cbsf /\ rew' = b.rew
-     /\ pbsf' = cbsf
+     /\ pbsf' = cbsf /\ prev' = cur
      /\ seenMin' = Min(seenMin, TourLen(inst.D, nextRec))
      /\ rsum' = rsum + b.rew
      /\ hist' = Append(hist, a)
@@ -61,5 +62,31 @@ C_Sum      == rsum # TourLen(inst.D, rec0) - cbsf => MFail("reward-sum")
 \* well-definedness of scatter_ with duplicate indices in the k-opt operator
 C_Clash    == (~IsPDP(inst) /\ inst.K > 2 /\ hist # <<>> /\ Last(hist) # Jump /\ KClash(inst.K, Last(hist)))
               => MFail("scatter-clash")
+
+(* what the moves mean (sanity of the transcribed operators against the textbook definitions; MODELFAIL
+   "move-meaning" is reported as drift of the model, it is not a clause of C09) *)
+Reverse(s) == [i \in 1..Len(s) |-> s[Len(s) + 1 - i]]
+\* 2-opt: the stretch first..second is traversed backwards, the rest of the cycle as before
+TwoOptMeaning(pre, f, s, post) ==
+  LET o == Walk(pre, f, Len(pre))
+      k == Pos(o, s)
+  IN post = RecOf(Reverse(SubSeq(o, 1, k)) \o SubSeq(o, k + 1, Len(o)))
+\* k-opt: every edge left[j]-right[j] is in the new tour and only edges (a, next a) of selected nodes a may disappear
+UEdges(rec) == {{i - 1, rec[i]} : i \in 1..Len(rec)}
+KMeaning(pre, K, act, post) ==
+  /\ {{KLeft(K, act)[j], KRight(K, act)[j]} : j \in 1..K} \subseteq UEdges(post)
+  /\ UEdges(pre) \ UEdges(post) \subseteq {{KIdx(K, act)[j], Nx(pre, KIdx(K, act)[j])} : j \in 1..K}
+\* ruin-repair: take the pair out of the visiting order, put the delivery behind `second`, then the pickup behind `first`
+Without(seq, S) == SelectSeq(seq, LAMBDA x : x \notin S)
+InsertAfter(seq, x, y) == LET k == Pos(seq, x) IN SubSeq(seq, 1, k) \o <<y>> \o SubSeq(seq, k + 1, Len(seq))
+RRMeaning(pre, p, f, s, post) ==
+  LET h == Len(pre) \div 2
+      o == Without(Order(pre), {p + 1, p + 1 + h})
+  IN post = RecOf(InsertAfter(InsertAfter(o, s, p + 1 + h), f, p + 1))
+Meaning(a) == IF IsPDP(inst) THEN RRMeaning(prev, a[1], a[2], a[3], cur)
+              ELSE IF inst.K = 2 THEN TwoOptMeaning(prev, a[1], a[2], cur)
+              ELSE KMeaning(prev, inst.K, a, cur)
+C_Meaning == (hist # <<>> /\ Last(hist) # Jump /\ ~Meaning(Last(hist))) => MFail("move-meaning")
+
 Emit == PrintT(<<"S", inst.id, rec0, hist, cur, best, ccur, cbsf, rew>>)
 =============================================================================
